@@ -187,18 +187,47 @@ class ParLasZipCompressor(LasZipCompressor):
     pass
 
 
+class _ReadAhead:
+    """what a buffered reader around a source that cannot seek does (the real backend wraps the Python object in one): it asks the source for
+    blocks and serves the decompressor's reads from them, so the source's own position runs ahead of the logical one"""
+    BLOCK = 8192
+
+    def __init__(self, src):
+        self.src = src
+        self.buf = b""
+
+    def read(self, n):
+        while len(self.buf) < n:
+            got = self.src.read(max(self.BLOCK, n - len(self.buf)))
+            if not got:
+                break
+            self.buf += got
+        out, self.buf = self.buf[:n], self.buf[n:]
+        return out
+
+    def seekable(self):
+        return False
+
+
+def _cannot_seek(source):
+    try:
+        return not source.seekable()
+    except AttributeError:
+        return True
+
+
 class LasZipDecompressor:
     """sequential decompressor; uses the chunk table only for seek()"""
 
     def __init__(self, source, record_data, selection=None):
-        self.source = source
+        self.source = _ReadAhead(source) if _cannot_seek(source) else source
         self.vlr = _as_vlr(record_data)
         self.selection = _ALL_BITS if selection is None else int(getattr(selection, "value", selection))
         self._skip = _unselected_ranges(self.vlr.fmt, self.vlr.item_size(), self.selection)
-        self.table_offset = struct.unpack("<q", _read_exact(source, 8))[0]
+        self.table_offset = struct.unpack("<q", _read_exact(self.source, 8))[0]
         self.first_chunk = None
         try:
-            self.first_chunk = source.tell() if source.seekable() else None
+            self.first_chunk = source.tell() if not _cannot_seek(source) else None
         except (AttributeError, io.UnsupportedOperation):
             self.first_chunk = None
         self.chunk_index = 0
@@ -259,7 +288,7 @@ class LasZipDecompressor:
 
 class ParLasZipDecompressor(LasZipDecompressor):
     def __init__(self, source, record_data, selection=None):
-        if not source.seekable():
+        if _cannot_seek(source):
             raise LazrsError("the parallel decompressor needs a seekable source")
         super().__init__(source, record_data, selection)
         self._load_table()
